@@ -109,6 +109,73 @@ def r11_2(ctx):
                     fresh.add(n.targets[0].id)       # PlanarCurve.split returns fresh pieces (R08.1)
                 if isinstance(v.func, ast.Name) and v.func.id in ("list", "tuple", "sorted"):
                     fresh.add(n.targets[0].id)
+    # aliases of fresh pieces: x = F[i] / a, b = F[i], F[j] / for x in F / for i, x in enumerate(F) / zip(F, F[1:])
+    def rooted_fresh(e):
+        while isinstance(e, (ast.Subscript, ast.Starred)):
+            e = e.value
+        if isinstance(e, ast.Call) and isinstance(e.func, ast.Name) and e.func.id in ("enumerate", "zip", "reversed", "list", "tuple") \
+                and e.args:
+            return all(rooted_fresh(a) for a in e.args if not isinstance(a, ast.Constant))
+        return isinstance(e, ast.Name) and e.id in fresh
+
+    def bindings(target, value, it_mode):
+        """[(name, value expr or ('elem', iter expr))] for one binding construct"""
+        if isinstance(target, ast.Name):
+            return [(target.id, value, it_mode)]
+        out_ = []
+        if isinstance(target, (ast.Tuple, ast.List)):
+            if it_mode and isinstance(value, ast.Call) and isinstance(value.func, ast.Name) and value.func.id == "enumerate" \
+                    and len(target.elts) == 2 and value.args:
+                return [(target.elts[0].id, None, False)] if isinstance(target.elts[0], ast.Name) else [] \
+                    + bindings(target.elts[1], value.args[0], True)
+            if it_mode and isinstance(value, ast.Call) and isinstance(value.func, ast.Name) and value.func.id == "zip" \
+                    and len(value.args) == len(target.elts):
+                for t, v in zip(target.elts, value.args):
+                    out_ += bindings(t, v, True)
+                return out_
+            if not it_mode and isinstance(value, (ast.Tuple, ast.List)) and len(value.elts) == len(target.elts):
+                for t, v in zip(target.elts, value.elts):
+                    out_ += bindings(t, v, False)
+                return out_
+            for t in target.elts:
+                out_ += bindings(t, None, False)
+        return out_
+    allb = {}
+    for n in ast.walk(fn.node):
+        if isinstance(n, ast.Assign):
+            for t in n.targets:
+                for nm, v, im in bindings(t, n.value, False):
+                    allb.setdefault(nm, []).append((v, im))
+        elif isinstance(n, (ast.For, ast.comprehension)):
+            for nm, v, im in bindings(n.target, n.iter, True):
+                allb.setdefault(nm, []).append((v, im))
+        elif isinstance(n, (ast.AugAssign, ast.AnnAssign, ast.NamedExpr)) and isinstance(n.target, ast.Name):
+            allb.setdefault(n.target.id, []).append((None, False))
+    for p_ in fn.params:
+        allb.setdefault(p_, []).append((None, False))
+    seeded_fresh = set(fresh)
+
+    def binding_fresh(v, im):
+        if v is None:
+            return False
+        if isinstance(v, ast.Call) and not im:
+            tg = pat.call_targets(inf, v)
+            if tg and all(t.endswith(".split") and not t.startswith("jordancurve.") for t in tg):
+                return True
+            if isinstance(v.func, ast.Name) and v.func.id in ("list", "tuple", "sorted"):
+                return True
+        if isinstance(v, ast.Name):
+            return v.id in fresh and (im or v.id not in seeded_fresh or True)
+        return rooted_fresh(v) and (im or isinstance(v, ast.Subscript))
+    # a name denotes a fresh piece only if *every* binding of it in the function does
+    fresh = set()
+    changed = True
+    while changed:
+        changed = False
+        for nm, bs in allb.items():
+            if nm not in fresh and bs and all(binding_fresh(v, im) for v, im in bs):
+                fresh.add(nm)
+                changed = True
     commits, bad = [], []
     for n in ast.walk(fn.node):
         if isinstance(n, (ast.Assign, ast.AugAssign)):
